@@ -157,14 +157,22 @@ def work(item):
     try:
         for leaf in leaves:
             path = leaf.path()
-            ops = H.path_ops(path, bids)
-            obs = H.clist([H.clayer_obs(H.dump_layer(n.db), n.parent is None) for n in reversed(path)])
-            absobs = H.clist(["abs_matches 60 (skipn %d c) %s" % (len(path) - 1 - d, H.cabs_obs(n.db)) for d, n in enumerate(path)])
+            # every big literal is its own Definition: elaboration of one huge term is superlinear
+            defs = ["Definition @ops : list op := %s." % H.path_ops(path, bids)]
+            lnames, anames = [], []
+            for j, n in enumerate(reversed(path)):
+                defs.append("Definition @L%d : list node * list (sig * nat) * list (nat * nat) := %s."
+                            % (j, H.clayer_obs(H.dump_layer(n.db), n.parent is None)))
+                lnames.append("@L%d" % j)
+            for d, n in enumerate(path):
+                defs.append("Definition @A%d : list (sig * list rclause) := %s." % (d, H.cabs_obs(n.db)))
+                anames.append("abs_matches 60 (skipn %d c) @A%d" % (len(path) - 1 - d, d))
             # + (sampled, not a theorem) redirect soundness at depth <= 2: every call node resolves to the
             #   current definition of its predicate, seen through the child
-            res["cases"].append("let c := run %s %s root0 in chain_matches c %s && forallb (fun b => b) %s "
-                                "&& (if length c <=? 2 then forallb (call_resolves c) (seq 0 (size c)) else true)"
-                                % (gmode, ops, obs, absobs))
+            expr = ("let c := run %s @ops root0 in chain_matches c %s && forallb (fun b => b) %s "
+                    "&& (if length c <=? 2 then forallb (call_resolves c) (seq 0 (size c)) else true)"
+                    % (gmode, H.clist(lnames), H.clist(anames)))
+            res["cases"].append({"defs": defs, "expr": expr})
     except ValueError as e:
         res["encode_error"] = "%s on %s" % (e, history_text(acts))
     st = res["stats"]
@@ -228,8 +236,24 @@ def run(ctx):
         for c in r["cases"]:
             cases.append(c)
             metas.append(history_text(r["acts"]))
+    from concurrent.futures import ThreadPoolExecutor
+    per = 16
+    shards = [list(range(i, min(i + per, len(cases)))) for i in range(0, len(cases), per)]
+
+    def one(arg):
+        k, idxs = arg
+        defs, exprs = [], []
+        for i in idxs:
+            pre = "k%d_" % i
+            defs += [d.replace("@", pre) for d in cases[i]["defs"]]
+            exprs.append(cases[i]["expr"].replace("@", pre))
+        r = ctx.coq_failing(HEADER + "\n".join(defs) + "\n", exprs, name="cdb%d" % k, shard=len(exprs) + 1, jobs=1)
+        return [idxs[j] for j in r]
     try:
-        bad = ctx.coq_failing(HEADER, cases, name="cdb", shard=25, jobs=8)
+        bad = []
+        with ThreadPoolExecutor(max_workers=6) as ex:
+            for r in ex.map(one, enumerate(shards)):
+                bad += r
     except RuntimeError as e:
         ctx.broken.append("correspondence:ClauseDB model does not evaluate")
         ctx.notes.append(str(e))
